@@ -143,6 +143,28 @@ func one(r *ev.Run, c *ev.Case, i int, mu *sync.Mutex, seenKeys map[string]int) 
 		ps.ReqUser = "root"
 	}
 	rec := reqRec{Conf: confJSON, LogName: logName, ReqUser: ps.ReqUser, ReqHost: ps.ReqHost, IP: ps.ClientIP, TransID: ps.TransID, CAAlgo: ps.CAAlgo, Validity: validity, IDs: ids}
+	// earlier requests on the same agent leave their private keys (and certificates) behind
+	for k := c.Rand.Intn(3); k > 0; k-- {
+		warm := ps
+		warm.TransID = gen.Ident(rng, 10)
+		if _, ok := want[warm.CAAlgo]; !ok {
+			break
+		}
+		ws := &gsrig.Signer{Agent: ag}
+		if e, esc := gsrig.Run(gsrig.Param(warm), []gensign.Handler{rig.Handler}, ws); e == nil && esc == "" && len(ws.Calls) == 1 {
+			if pk, _, _, _, pe := ssh.ParseAuthorizedKey([]byte(ws.Calls[0].Req.PublicKey)); pe == nil {
+				mu.Lock()
+				if prev, dup := seenKeys[string(pk.Marshal())]; dup {
+					mu.Unlock()
+					r.Violation(c, "csr-field:public-key-reused", fmt.Sprintf("same key as request %d (earlier request on the same agent)", prev), rec)
+					return
+				}
+				seenKeys[string(pk.Marshal())] = -i
+				mu.Unlock()
+			}
+			r.Count("earlier requests on the same agent", 1)
+		}
+	}
 	ag.ResetLog()
 	r.Eval(1)
 	runErr, escaped := gsrig.Run(gsrig.Param(ps), []gensign.Handler{rig.Handler}, rig.Signer)
